@@ -274,3 +274,19 @@ func watched(f func()) bool {
 	}()
 	return waitCh(done)
 }
+
+// isupportLines are RPL_ISUPPORT replies as real networks send them (restrictive CHANTYPES, long LINELEN, short
+// NICKLEN ...). Nothing any property states depends on what a server advertises there.
+var isupportLines = []string{
+	":srv 005 me CHANTYPES=# LINELEN=4096 NICKLEN=9 CHANLIMIT=#:10 PREFIX=(ov)@+ NETWORK=verif CASEMAPPING=rfc1459 :are supported by this server",
+	":srv 005 me CHANTYPES=&# LINELEN=2048 MAXTARGETS=1 UTF8ONLY CHARSET=utf-8 MODES=1 TOPICLEN=10 :are supported by this server",
+	":srv 005 me CHANTYPES= LINELEN=512 KICKLEN=1 AWAYLEN=1 PREFIX= STATUSMSG=@+ EXCEPTS INVEX :are supported by this server",
+}
+
+// Isupport lets the server announce its parameters (variant picks one of three replies) and waits until the line
+// has been through its handlers.
+func (s *Session) Isupport(mc *rig.MemConn, variant int) bool {
+	l := isupportLines[((variant%len(isupportLines))+len(isupportLines))%len(isupportLines)]
+	mc.SendLine(strings.Replace(l, " 005 me ", " 005 "+s.Conn.Me().Nick+" ", 1))
+	return s.FgMarker(mc)
+}
